@@ -178,7 +178,11 @@ func execCase(c core.Case) []string {
 			out = append(out, getP().check())
 		case "mp":
 			pool, ok := natTok(a["pool"])
-			if !ok || (a["ver"] != "v0" && a["ver"] != "v1") {
+			conn, hasConn := a["conn"]
+			if !hasConn {
+				conn = "sync"
+			}
+			if !ok || (a["ver"] != "v0" && a["ver"] != "v1") || !(conn == "sync" || (conn == "async" && a["ver"] == "v0")) {
 				out = append(out, "bad-op")
 				break
 			}
@@ -190,7 +194,7 @@ func execCase(c core.Case) []string {
 				mpLocked = true
 			}
 			var err error
-			m, err = newMPCase(a["ver"], pool)
+			m, err = newMPCase(a["ver"], pool, conn == "async")
 			if err != nil {
 				out = append(out, "mp-error:"+trunc(err.Error(), 200))
 				m = nil
@@ -427,12 +431,41 @@ func oracle(c core.Case, out []string) []core.Finding {
 			}
 		case "mp":
 			mpver = kv(op)["ver"]
+			if kv(op)["conn"] == "async" {
+				mpver += ".async"
+			}
 		case "spawncheck", "spawncommit", "rel":
 			g := kv("x " + o)["gate"]
+			if strings.HasPrefix(o, "TIMEOUT") {
+				add("harness.mempool-not-quiescent", o)
+			}
+			hasCheck, hasCommit, hasRe := false, false, false
+			if q, isAsync := kv("x " + o)["queue"]; isAsync {
+				// asynchronous connection: requests listed in connection order; a new check is
+				// in flight while it is in the queue; rechecks queued behind it are not done
+				checkSeen := false
+				if q != "-" {
+					for _, n := range strings.Split(q, ",") {
+						if strings.HasPrefix(n, "check:") {
+							checkSeen = true
+						} else if strings.HasPrefix(n, "recheck:") && checkSeen {
+							hasRe, hasCheck = true, true
+						}
+					}
+				}
+				if checkSeen && g == "commit" {
+					add("mempool."+mpver+".new-check-in-flight-while-commit-requested",
+						"a CheckTx of a new transaction is unanswered on the asynchronous mempool connection while app Commit is requested: "+o)
+				}
+				if hasRe {
+					add("mempool."+mpver+".new-check-in-flight-before-recheck-done",
+						"a CheckTx of a new transaction is unanswered ahead of the rechecks of the committed block: "+o)
+				}
+				break
+			}
 			if g == "" || g == "-" {
 				break
 			}
-			hasCheck, hasCommit, hasRe := false, false, false
 			for _, n := range strings.Split(g, ",") {
 				switch {
 				case strings.HasPrefix(n, "check:"):
@@ -450,9 +483,6 @@ func oracle(c core.Case, out []string) []core.Finding {
 			if hasCheck && hasRe {
 				add("mempool."+mpver+".new-check-in-flight-before-recheck-done",
 					"a CheckTx of a new transaction is on the mempool connection before the rechecks of the committed block are done: "+o)
-			}
-			if strings.HasPrefix(o, "TIMEOUT") {
-				add("harness.mempool-not-quiescent", o)
 			}
 		case "node":
 			if strings.HasPrefix(o, "stalled ") {
@@ -642,26 +672,47 @@ func gen(r *rand.Rand, tier string, emit func(core.Case)) {
 	}
 	// (c) mempool interleavings
 	for i := 0; i < 120*scale; i++ {
-		ver := []string{"v0", "v1"}[r.Intn(2)]
+		ver := []string{"v0", "v1", "v0 conn=async"}[r.Intn(3)]
 		pool := r.Intn(3)
 		ops := []string{fmt.Sprintf("mp ver=%s pool=%d", ver, pool)}
+		ver = strings.ReplaceAll(ver, " conn=", "-")
+		ids := []int{1, 9, 2}
 		// a random schedule over the names a model-free scheduler can know: it releases whatever
 		// the previous answers could have shown; wrong guesses answer not-enabled on both sides
-		names := []string{"flush", "commit", "check:1", "check:2", "check:3", "recheck:0", "recheck:1", "recheck:2", "recheck:3", "recheck:4"}
+		names := []string{"flush", "commit", "commit", "check:1", "check:2", "check:9", "check:1", "recheck:0", "recheck:1", "recheck:2", "recheck:3", "recheck:4"}
 		nextCheck := 1
 		l := 6 + r.Intn(12)
+		// asynchronous connection: the order in which several checks blocked on the mempool lock get
+		// queued when it is released is a scheduler race; at most one check is submitted once a
+		// commit may hold the lock
+		commits, lateChecks := 0, 0
 		for j := 0; j < l; j++ {
 			switch x := r.Intn(10); {
-			case x < 2 && nextCheck <= 3:
-				ops = append(ops, fmt.Sprintf("spawncheck i=%d", nextCheck))
+			case x < 2 && nextCheck <= 3 && !(strings.HasSuffix(ver, "async") && commits > 0 && lateChecks > 0):
+				ops = append(ops, fmt.Sprintf("spawncheck i=%d", ids[nextCheck-1]))
 				nextCheck++
+				if commits > 0 {
+					lateChecks++
+				}
 			case x < 4:
+				commits++
 				ops = append(ops, "spawncommit")
 			default:
 				ops = append(ops, "rel what="+names[r.Intn(len(names))])
 			}
 		}
 		emit(core.Case{Kind: "mp-random-" + ver, Ops: ops})
+	}
+	// asynchronous connection, v0: checks (accepted and rejected) unanswered when the commit starts,
+	// with an empty and a non-empty pool; checks submitted while rechecks are unanswered
+	for pool := 0; pool <= 2; pool++ {
+		for _, first := range []int{1, 9} {
+			ops := []string{fmt.Sprintf("mp ver=v0 pool=%d conn=async", pool), fmt.Sprintf("spawncheck i=%d", first), "spawncheck i=2", "spawncommit",
+				"rel what=commit", fmt.Sprintf("rel what=check:%d", first), "rel what=commit", "rel what=check:2", "rel what=commit",
+				"spawncheck i=3", "rel what=recheck:0", "rel what=check:3", "rel what=recheck:0", "rel what=recheck:1", "rel what=recheck:2", "rel what=recheck:3", "rel what=check:3",
+				"spawncommit", "rel what=commit"}
+			emit(core.Case{Kind: "mp-scripted-v0-async", Ops: ops})
+		}
 	}
 	for _, ver := range []string{"v0", "v1"} {
 		for pool := 0; pool <= 2; pool++ {
